@@ -513,3 +513,8 @@ WITNESSES += [
 WITNESSES += [
     Witness("C17.W15", "menpo/shape/mesh/base.py", "TriMesh.from_mask", "if np.all(mask):", "if np.all(mask[self.trilist]):", rule="C17.R1", construct="TriMesh.from_mask", note="seeded change R4-C17-C"),
 ]
+
+WITNESSES += [
+    Witness("C17.W16", "menpo/shape/mesh/base.py", "TriMesh.tri_areas", "t = self.points[self.trilist]",
+            "if getattr(self, '_areas', None) is not None:\n        return self._areas\n    t = self.points[self.trilist]\n    self._areas = None", rule="C17.G5", construct="tri_areas", note="generic: a method gives the object a new attribute"),
+]
